@@ -261,6 +261,10 @@ func allocEscapes(a ssa.Value) bool {
 					return true
 				}
 			case *ssa.MakeClosure:
+				if readOnlyCapture(a, u) {
+					// the literal (and whatever it is passed to) can only read the cell
+					continue
+				}
 				// captured by a function literal that is only deferred: the cell stays
 				// private to this function and that literal (which is executed in place)
 				crefs := u.Referrers()
@@ -1023,4 +1027,67 @@ func simpleLiteral(fn *ssa.Function) bool {
 		}
 	}
 	return n <= 80
+}
+
+// readOnlyCapture: the cell a is written exactly once in its function (its
+// initialisation) and the closure u never writes the corresponding free
+// variable nor lets its address escape: nobody can change the cell after it
+// has been captured.
+func readOnlyCapture(a ssa.Value, u *ssa.MakeClosure) bool {
+	al, ok := a.(*ssa.Alloc)
+	if !ok {
+		return false
+	}
+	stores := 0
+	if refs := al.Referrers(); refs != nil {
+		for _, r := range *refs {
+			if s, ok := r.(*ssa.Store); ok && s.Addr == ssa.Value(al) {
+				stores++
+			}
+		}
+	}
+	if stores > 1 {
+		return false
+	}
+	fn, ok := u.Fn.(*ssa.Function)
+	if !ok || fn.Blocks == nil {
+		return false
+	}
+	for i, b := range u.Bindings {
+		if b != a {
+			continue
+		}
+		fv := fn.FreeVars[i]
+		refs := fv.Referrers()
+		if refs == nil {
+			return false
+		}
+		for _, r := range *refs {
+			switch x := r.(type) {
+			case *ssa.DebugRef:
+			case *ssa.UnOp:
+				if x.Op != token.MUL {
+					return false
+				}
+			case *ssa.FieldAddr:
+				// field reads only
+				if frefs := x.Referrers(); frefs != nil {
+					for _, fr := range *frefs {
+						switch y := fr.(type) {
+						case *ssa.DebugRef:
+						case *ssa.UnOp:
+							if y.Op != token.MUL {
+								return false
+							}
+						default:
+							return false
+						}
+					}
+				}
+			default:
+				return false
+			}
+		}
+	}
+	return true
 }
